@@ -278,6 +278,12 @@ def extras():
     for T, mk in ((NatType, Nat), (IntType, Int), (RealType, Real)):
         for n in (0, 1, 2, 10, 255, 4096):
             res.append(("num-%s-%d" % (T, n), Eq(mk(n), mk(n))))
+    # numerals that are not in normal form: of_nat applied to the constants zero / one
+    for T in (IntType, RealType):
+        g = Var("g", TFun(T, T))
+        for n in (0, 1):
+            res.append(("of-nat-%d-%s" % (n, T), Eq(g(Const("of_nat", TFun(NatType, T))(Nat(n))), Const("of_nat", TFun(NatType, T))(Nat(n)))))
+            res.append(("of-nat-%d-plus-%s" % (n, T), Eq(Const("plus", TFun(T, T, T))(Const("of_nat", TFun(NatType, T))(Nat(n)), g(Const("zero", T))), Const("zero", T))))
     res.append(("int-neg", Eq(Int(-5), Const("uminus", TFun(IntType, IntType))(Int(5)))))
     res.append(("real-frac", Eq(Const("real_divide", TFun(RealType, RealType, RealType))(Real(1), Real(3)), Real(2))))
     res.append(("of-nat", Eq(Const("of_nat", TFun(NatType, RealType))(x), Real(2))))
